@@ -604,7 +604,7 @@ theorem Lands.bind_unsupported {α β : Type} {k : Key} {cfg : FlowCfg} {hd : He
   ⟨fun _ _ _ => trivial⟩
 
 /-- side conditions `… → Edge (classify cfg) u v` of the rules: with `succs (classify cfg) u = […]` among the hypotheses -/
-macro "lands_side" : tactic => `(tactic| (intro _; simp only [SlideGraph.Edge]; simp [*]; done))
+macro "lands_side" : tactic => `(tactic| (intros; simp only [SlideGraph.Edge]; simp [*]; done))
 
 macro "lands_step" : tactic => `(tactic| first
   | with_reducible_and_instances exact Lands.pure_stop _
@@ -612,8 +612,8 @@ macro "lands_step" : tactic => `(tactic| first
   | (with_reducible_and_instances refine Lands.bind_labelPos ?_; intro _ _)
   | with_reducible_and_instances exact Lands.bind_pyRaise _ _ _
   | with_reducible_and_instances exact Lands.bind_unsupported _ _
-  | (with_reducible_and_instances refine Lands.bind_keeps (by keeps) ?_)
   | (with_reducible_and_instances refine Lands.bind_pres (pres_setFlowStatus_stopping _ _ _ _) ?_)
+  | (with_reducible_and_instances refine Lands.bind_keeps (by keeps) ?_)
   | intro _
   | split
   | dsimp only)
